@@ -6,4 +6,4 @@ From OFV Require Import CSem KernelRun ITModel ITRun Sparse SparseRun RSApi RSRu
 From OFV.gen Require Import GenPrng GenBlocking.
 Extraction Language OCaml.
 Extraction "model.ml" Z.of_nat Z.to_nat Z.add Z.mul Z.sub Z.opp Z.compare N.of_nat N.to_nat Z.of_N Z.to_N
-  of_rfc5170_rand of_rfc5170_srand of_compute_blocking_struct run_kernel it_session s_allocate sparse_step rs_session pchk accept_ldpc accept_rs28 accept_rs2m d_allocate dense_step solve_bytes ml_session create2d rs_repairs invert_mat256 invert_mat16 ev_session build_enc256 build_enc16 api_verdict.
+  of_rfc5170_rand of_rfc5170_srand of_compute_blocking_struct run_kernel it_session s_allocate sparse_step rs_session pchk accept_ldpc accept_rs28 accept_rs2m d_allocate dense_step solve_bytes ml_session create2d rs_repairs invert_mat256 invert_mat16 ev_session build_enc256 build_enc16 api_verdict hweight_array_run.
